@@ -13,7 +13,9 @@ the carried overflow counter `EventDecoder._overflow_counter`:
   is the carried value plus the sum of the overflow tags before it in the batch
   (the inclusive `cumsum` at a non-overflow position adds 0 for the position itself).
 
-uint64 wrap-around is out of scope (unbounded `Nat`).  The literal constants are
+`process` is the unbounded (`Nat`) reading; `processU64` is what numpy computes: the running count, the product with the
+period and the sum with the tag are uint64 operations that wrap silently modulo 2^64.  The two agree as long as the
+counter stays below 2^64 / period (theorem `processU64_eq_process` in `Props/C15B.lean`).  The literal constants are
 fields of `Params`, regenerated into `QmiModel/Gen/Layouts.lean`.
 
 Core Lean only.
@@ -50,6 +52,21 @@ def process (p : Params) : Nat → List Nat → Nat × List Event
     | (c1, none) => process p c1 rs
     | (c1, some e) => let (c2, es) := process p c1 rs; (c2, e :: es)
 
+/-- numpy's uint64 arithmetic: `overflow_counts` (cumsum + carried counter), `* overflow_period`, `+ record_tags` all wrap -/
+def word : Nat := 2 ^ 64
+
+def stepU64 (p : Params) (c : Nat) (r : Nat) : Nat × Option Event :=
+  if isOverflow p r then ((c + recTag p r) % word, none)
+  else (c, some ⟨recType p r, (c * p.period + recTag p r) % word⟩)
+
+/-- `process_data` exactly as numpy evaluates it (carried counter `c < 2^64`) -/
+def processU64 (p : Params) : Nat → List Nat → Nat × List Event
+  | c, [] => (c, [])
+  | c, r :: rs =>
+    match stepU64 p c r with
+    | (c1, none) => processU64 p c1 rs
+    | (c1, some e) => let (c2, es) := processU64 p c1 rs; (c2, e :: es)
+
 /-- a decoder fed batch after batch (`process_data` called once per batch) -/
 def processBatches (p : Params) : Nat → List (List Nat) → Nat × List Event
   | c, [] => (c, [])
@@ -61,5 +78,58 @@ def processBatches (p : Params) : Nat → List (List Nat) → Nat × List Event
 /-- sum of the overflow tags of a batch -/
 def overflowSum (p : Params) (rs : List Nat) : Nat :=
   (rs.map (fun r => if isOverflow p r then recTag p r else 0)).sum
+
+
+/-! ## T3 mode (`_T3EventDecoder.process_data`), same file, same carried counter
+
+Records carry `d_time` (bits 24..10) and `n_sync` (bits 9..0); an overflow record adds its `n_sync` to the carried
+counter.  Every other record yields `(type, (counter·wrap + n_sync)·P + d_time·R)`; in addition **one SYNC event per
+distinct sync timestamp of the batch** (`np.unique`) is inserted and the batch is sorted by (timestamp, type descending)
+(`np.lexsort`).  `P` = sync period in ps, `R` = resolution in ps: the code computes in float64; the model is exact for
+integer `P`, `R` while every timestamp stays below 2^53 (the harness stays far below). -/
+
+structure Params3 where
+  typeShift : Nat      -- `fifo_data >> 25`
+  dShift : Nat         -- `fifo_data >> 10 & 0x07fff`
+  dMask : Nat
+  nMask : Nat          -- `fifo_data & 0x03ff`
+  overflowType : Nat   -- 0x7f
+  wrap : Nat           -- `(1 << 10)` of `overflow_period`
+  syncType : Nat       -- the literal 64
+  deriving DecidableEq, Repr
+
+def t3Type (p : Params3) (r : Nat) : Nat := (r >>> p.typeShift) % 256
+def t3D (p : Params3) (r : Nat) : Nat := (r >>> p.dShift) &&& p.dMask
+def t3N (p : Params3) (r : Nat) : Nat := r &&& p.nMask
+def t3IsOverflow (p : Params3) (r : Nat) : Bool := t3Type p r == p.overflowType
+
+/-- the pass before `unique`/`lexsort`: carried counter, and per non-overflow record (event, its sync timestamp) -/
+def t3Scan (p : Params3) (P R : Nat) : Nat → List Nat → Nat × List (Event × Nat)
+  | c, [] => (c, [])
+  | c, r :: rs =>
+    if t3IsOverflow p r then t3Scan p P R ((c + t3N p r) % word) rs
+    else
+      let sync := (c * p.wrap + t3N p r) * P
+      let (c2, xs) := t3Scan p P R c rs
+      (c2, (⟨t3Type p r, sync + t3D p r * R⟩, sync) :: xs)
+
+/-- insertion into a list sorted by (timestamp ascending, type descending) -/
+def insertEv (e : Event) : List Event → List Event
+  | [] => [e]
+  | x :: xs => if x.ts < e.ts ∨ (x.ts = e.ts ∧ x.typ ≥ e.typ) then x :: insertEv e xs else e :: x :: xs
+
+def sortEv (es : List Event) : List Event := es.foldl (fun acc e => insertEv e acc) []
+
+/-- insertion into a strictly increasing list (`np.unique`) -/
+def insertUniq (v : Nat) : List Nat → List Nat
+  | [] => [v]
+  | x :: xs => if x < v then x :: insertUniq v xs else if x = v then x :: xs else v :: x :: xs
+
+def uniqSorted (vs : List Nat) : List Nat := vs.foldl (fun acc v => insertUniq v acc) []
+
+/-- `_T3EventDecoder.process_data` with `_overflow_counter = c` -/
+def processT3 (p : Params3) (P R : Nat) (c : Nat) (rs : List Nat) : Nat × List Event :=
+  let (c', xs) := t3Scan p P R c rs
+  (c', sortEv (xs.map (·.1) ++ (uniqSorted (xs.map (·.2))).map (fun s => ⟨p.syncType, s⟩)))
 
 end QmiModel.T2
